@@ -55,7 +55,7 @@ def s19_tracevalidate(ctx):
 
     res = StreamResult("S19-tracevalidate", rule="valid and planted-defect maps written as GeoJSON / GPKG / Shapefile, with and without CRS, with attribute columns x "
                        "allow-fix / only-area-validation / allow-empty-area / snap threshold x output locations (fresh, existing file replaced, output named like a "
-                       "prefix of the inputs, in place); output compared with the library result, every other file in the directory hashed before/after; "
+                       "prefix of the inputs, in place, next to the trace input under its base name with another extension); output compared with the library result, every other file in the directory hashed before/after; "
                        "non-trivial = run whose library result has an error")
     rng = rng_for(ctx.seed, "S19")
     runner = CliRunner()
@@ -70,8 +70,13 @@ def s19_tracevalidate(ctx):
             with_crs = rng.random() < 0.6
             stem = rng.choice(["kb7", "map", "x"])
             empty_area = rng.random() < 0.2  # target area void of traces (with --no-allow-empty-area: the documented EMPTY TARGET AREA exit)
+            modes = ["fresh", "existing", "prefix", "inplace", "samestem"]
+            mode = rng.choice(modes)
+            if k < 2 * len(modes):
+                mode = modes[k % len(modes)]  # every output location at least twice per run
+            if mode == "samestem" and driver == "ESRI Shapefile":
+                driver = "GeoJSON" if k % 2 else "GPKG"
             tp, ap, names = build_inputs(rng, d, driver, with_crs, stem, empty_area)
-            mode = rng.choice(["fresh", "existing", "prefix", "inplace"])
             if mode == "fresh":
                 op = d / "out" / f"validated{EXT[driver]}"
                 op.parent.mkdir()
@@ -81,6 +86,8 @@ def s19_tracevalidate(ctx):
             elif mode == "prefix":
                 op = d / f"{stem}{EXT[driver]}"  # stem of the output is a prefix of both input names
                 shutil.copy(tp, op)
+            elif mode == "samestem":
+                op = d / f"{tp.stem}.validated"  # same directory and same base name as the trace INPUT, another extension (the input's driver is used)
             else:
                 op = tp
             opts = {"allow_fix": rng.random() < 0.5, "only_area": rng.random() < 0.25, "allow_empty": rng.random() < 0.8, "snap": rng.choice([0.01, 0.001])}
@@ -139,7 +146,7 @@ def s19_tracevalidate(ctx):
                 if txt != want:
                     res.disagreements.append(Disagreement("S19-tracevalidate", case, want, txt, True, "error text in the written file is not the library's tuple"))
                     break
-        res.samples = [{"args": "tracevalidate <traces> <area> --output <out> ...", "modes": ["fresh", "existing", "prefix", "inplace"]}]
+        res.samples = [{"args": "tracevalidate <traces> <area> --output <out> ...", "modes": ["fresh", "existing", "prefix", "inplace", "samestem"]}]
     finally:
         shutil.rmtree(tmp, ignore_errors=True)
     return res
